@@ -278,9 +278,7 @@ def convert (keys : List Obj) : Obj → Node
   | .tuple (h :: args) =>
     if h.callable then .task (.call h) (convertList keys args) []
     else if inKeys keys (.tuple (h :: args)) then .alias (.tuple (h :: args))
-    else
-      let ps := convertList keys (h :: args)
-      if ps.any Node.isGraphNode then .task (.identityCast .tuple) ps [] else .raw (.tuple (h :: args))
+    else .raw (.tuple (h :: args))          -- a tuple that is neither a task nor a key is a literal
   | .tuple [] => if inKeys keys (.tuple []) then .alias (.tuple []) else .raw (.tuple [])
   | .list xs =>
     let ps := convertList keys xs
